@@ -1,7 +1,7 @@
 (* Proofs about Model/SearchCommand.v: what the search command hands from stage to stage. *)
 From Coq Require Import List ZArith NArith Bool Lia.
 From WTF Require Import Model.Validate Spec.ValidateSpec Model.Text Model.History Model.Cli Model.SearchCommand
-                        Proofs.ValidateProofs Proofs.HistoryProofs.
+                        Proofs.ValidateProofs Proofs.HistoryProofs Proofs.CliProofs.
 Import ListNotations.
 
 Section SearchCommandProofs.
@@ -45,3 +45,13 @@ Proof.
   rewrite A. exists h2. repeat split. exact B.
 Qed.
 End SearchCommandProofs.
+
+(* the accepted limit (1..100, the default for 0) bounds what is printed whenever the engine respects the limit it is given *)
+Lemma accepted_prints_at_most_the_limit (R : Type) (engine recovery : list N -> Z -> list R) d q limit now dur ctx h c l :
+  validate_query q = ROk c -> validate_limit d limit = ROk l ->
+  (length (engine c l) <= Z.to_nat l)%nat ->
+  (length (ro_printed (search_command R engine recovery d q limit now dur ctx h)) <= Z.to_nat l)%nat.
+Proof.
+  intros Q L B. unfold search_command. rewrite Q, L. cbn [ro_printed].
+  apply (@cli_results_bounded R l (engine c l) (recovery c l) B).
+Qed.
